@@ -55,8 +55,14 @@ pub struct Inner {
     timers: BTreeMap<u64, (i64, Option<Waker>)>,
     next_timer: u64,
     pub current_task: usize,
-    /// (task id, now, requested ns) for every Timer::delay request made by dust-dds code
+    /// (task id, now, requested ns) for every Timer::delay request made by dust-dds code that exceeds
+    /// `delay_log_threshold_ns`; all requests are counted
     pub delay_log: Vec<(usize, i64, u64)>,
+    pub delay_count: u64,
+    pub delay_zero_count: u64,
+    pub delay_log_threshold_ns: u64,
+    /// virtual time consumed by one task poll (time always passes)
+    pub step_ns: i64,
     pub outbox: Vec<Outgoing>,
     pub parts: Vec<PartNet>,
     pub fragment_size: usize,
@@ -70,7 +76,7 @@ pub type Sh = Arc<Shared>;
 
 fn new_shared(epoch: u64, fragment_size: usize) -> Sh {
     Arc::new(Shared {
-        inner: Mutex::new(Inner { now: T0_SEC * SEC, epoch, fragment_size, ..Default::default() }),
+        inner: Mutex::new(Inner { now: T0_SEC * SEC, epoch, fragment_size, delay_log_threshold_ns: 50 * MS as u64, step_ns: 1_000, ..Default::default() }),
     })
 }
 
@@ -111,10 +117,16 @@ impl Timer for SimTimer {
         let mut g = self.0.inner.lock().unwrap();
         let ns = duration.as_nanos().min(u64::MAX as u128) as u64;
         let (task, now) = (g.current_task, g.now);
-        g.delay_log.push((task, now, ns));
+        g.delay_count += 1;
+        if ns == 0 {
+            g.delay_zero_count += 1;
+        }
+        if ns > g.delay_log_threshold_ns && g.delay_log.len() < 10_000 {
+            g.delay_log.push((task, now, ns));
+        }
         let deadline = now.saturating_add(ns.min(i64::MAX as u64) as i64);
         drop(g);
-        SimDelay { sh: self.0.clone(), deadline, id: None }
+        SimDelay { sh: self.0.clone(), deadline, id: None, yielded: false }
     }
 }
 
@@ -122,6 +134,9 @@ pub struct SimDelay {
     sh: Sh,
     deadline: i64,
     id: Option<u64>,
+    /// a delay that is already over when first polled still yields once, so that a caller looping on
+    /// zero-length delays cannot monopolise the executor (and virtual time passes between its iterations)
+    yielded: bool,
 }
 impl Future for SimDelay {
     type Output = ();
@@ -131,8 +146,15 @@ impl Future for SimDelay {
         if g.now >= self.deadline {
             if let Some(id) = self.id.take() {
                 g.timers.remove(&id);
+                return Poll::Ready(());
             }
-            return Poll::Ready(());
+            if self.yielded {
+                return Poll::Ready(());
+            }
+            drop(g);
+            self.yielded = true;
+            cx.waker().wake_by_ref();
+            return Poll::Pending;
         }
         match self.id {
             Some(id) => {
@@ -376,7 +398,7 @@ impl Ctx {
     pub fn sleep_ns(&self, ns: i64) -> SimDelay {
         let sh = with(|w| w.sh.clone());
         let now = sh.inner.lock().unwrap().now;
-        SimDelay { sh, deadline: now + ns, id: None }
+        SimDelay { sh, deadline: now + ns, id: None, yielded: true }
     }
     pub fn sleep_ms(&self, ms: i64) -> SimDelay {
         self.sleep_ns(ms * MS)
@@ -465,6 +487,8 @@ pub struct RunOutcome {
     pub violations: Vec<(String, String)>,
     pub counters: BTreeMap<&'static str, u64>,
     pub delay_log: Vec<(usize, i64, u64)>,
+    pub delay_count: u64,
+    pub delay_zero_count: u64,
     pub delivered: Vec<(i64, Datagram)>,
     pub sent: Vec<(i64, usize, Arc<Vec<u8>>, Vec<Locator>)>,
     pub steps: u64,
@@ -750,6 +774,24 @@ where
                 }
             };
             if let Some(id) = next {
+                {
+                    // time always passes: every poll costs step_ns of virtual time
+                    let mut g = sh.inner.lock().unwrap();
+                    g.now += g.step_ns;
+                    let now = g.now;
+                    let mut wk = vec![];
+                    for (_, v) in g.timers.iter_mut() {
+                        if v.0 <= now {
+                            if let Some(w) = v.1.take() {
+                                wk.push(w);
+                            }
+                        }
+                    }
+                    drop(g);
+                    for w in wk {
+                        w.wake();
+                    }
+                }
                 if let Some(mut t) = ex.tasks[id].take() {
                     let w = ex.wakers[id].clone();
                     let mut cx = Context::from_waker(&w);
@@ -826,11 +868,11 @@ where
         f.verif_clear_channel();
     }
     drop(factory);
-    let (delay_log, end_time) = {
+    let (delay_log, end_time, delay_count, delay_zero_count) = {
         let mut g = sh.inner.lock().unwrap();
         g.epoch = u64::MAX; // stale wakers become no-ops
         g.timers.clear();
-        (std::mem::take(&mut g.delay_log), g.now)
+        (std::mem::take(&mut g.delay_log), g.now, g.delay_count, g.delay_zero_count)
     };
     let w = WORLD.with(|w| w.borrow_mut().take().unwrap());
     RunOutcome {
@@ -840,6 +882,8 @@ where
         violations: w.violations,
         counters: w.counters,
         delay_log,
+        delay_count,
+        delay_zero_count,
         delivered: w.net.delivered_log,
         sent: w.net.sent_log,
         steps,
